@@ -379,6 +379,51 @@ class Check:
         self.notes.append(s)
 
 
+class Only:
+    """view of a Check that keeps the instances of one rule whose key contains one of the given parts and
+    files them under another rule name (a clause of a rule registered under another property)"""
+
+    def __init__(self, check, rule, as_rule, parts):
+        self._c, self._rule, self._as, self._parts = check, rule, as_rule, parts
+        self.prog = check.prog
+        self.tier = check.tier
+
+    def _keep(self, rule, key):
+        return rule == self._rule and any(x in key for x in self._parts)
+
+    def _k(self, key):
+        return key.replace(self._rule, self._as, 1)
+
+    def rule(self, rule_id, text):
+        pass
+
+    def note(self, s):
+        pass
+
+    def ok(self, rule, key, *a, **k):
+        if self._keep(rule, key):
+            self._c.ok(self._as, self._k(key), *a, **k)
+
+    def bad(self, rule, key, *a, **k):
+        if self._keep(rule, key):
+            self._c.bad(self._as, self._k(key), *a, **k)
+
+    def expect(self, cond, rule, key, *a, **k):
+        if self._keep(rule, key):
+            return self._c.expect(cond, self._as, self._k(key), *a, **k)
+        return cond
+
+    def floor(self, rule, what, *a, **k):
+        if self._keep(rule, "/FLOOR/" + what):
+            self._c.floor(self._as, what, *a, **k)
+
+    def guarded(self, rule, fn):
+        fn(self)
+
+    def undecided(self, rule, what):
+        self._c.undecided(self._as, what)
+
+
 def load_known():
     p = os.path.join(VERIF, "known_findings.json")
     if not os.path.exists(p):
